@@ -61,8 +61,9 @@ fn ops_exp<C: NatCtx>(v: &mut Env<C>, x: &BigUint, y: &BigUint) {
     let o = v.case("xdiv", vec![n(x), n(y)], || Out::Ok(Val::Nat(C::x_val(&ex.divq(&ey, &ctx)))));
     agree(v, "divq", &[x, y], &o, inv_ref(y, &q).map(|i| x * i));
     let o = v.case("submod", vec![n(x), n(y)], || Out::Ok(Val::Nat(C::x_val(&ex.sub_mod(&ey, &ctx)))));
-    // for reduced operands: the canonical representative of x - y
-    agree(v, "sub_mod", &[x, y], &o, if *x < q && *y < q { Some((x + &q - y) % &q) } else { None });
+    // the canonical representative of x - y, also for lazily reduced operands (a product or a sum of exponents as
+    // minuend is what `mul` / `add` hand out); where the implementation panics (subtrahend beyond x + q) nothing is compared
+    agree(v, "sub_mod", &[x, y], &o, Some(((x % &q) + &q - (y % &q)) % &q));
 }
 fn ops_exp1<C: NatCtx>(v: &mut Env<C>, x: &BigUint) {
     let ex = v.x(x);
